@@ -105,7 +105,7 @@ Definition sp_probe (b : sbuild) (i j : nat) (v : T) : list Z :=
   | Panic k => fl_panic k
   end.
 
-(* sp.prod: A x, A^T y, transpose(A) y, <y, A x>, <A^T y, x>, (a A) x, a (A x) is left to the oracle *)
+(* sp.prod: A x, A^T y, transpose(A) y, <y, A x>, <A^T y, x>, dense twin, (a A) x *)
 Definition sp_prod (b : sbuild) (x y : list T) (a : T) : list Z :=
   match sp_build b with
   | Ok s =>
@@ -116,8 +116,8 @@ Definition sp_prod (b : sbuild) (x y : list T) (a : T) : list Z :=
       fl_res (fl_list flat) (let* t := sp_transpose s in sp_mul t y) ++
       fl_res flat (let* u := ax in dot y u) ++
       fl_res flat (let* w := aty in dot w x) ++
-      fl_res (fl_list flat) (let* s2 := sp_scale s a in sp_mul s2 x) ++
-      fl_res fl_mat (sp_to_dense s)
+      fl_res fl_mat (sp_to_dense s) ++
+      fl_res (fl_list flat) (let* s2 := sp_scale s a in sp_mul s2 x)
   | Panic k => fl_panic k
   end.
 
